@@ -14,6 +14,10 @@ pub struct Sut {
     pub evictions: Vec<(usize, usize, &'static str, u16)>,
     /// cache entries the application moved to another key: (ops before it, parser, map, id, new key)
     pub rekeys: Vec<(usize, usize, &'static str, u16, u16)>,
+    /// the application keeps a copy of a parser's four cache maps / merges the copy back in
+    /// (entries whose key is absent from that map): (ops before it, parser, "snapshot" | "restore")
+    pub persists: Vec<(usize, usize, &'static str)>,
+    pub saved: Vec<Option<NetflowParser>>,
     /// allowed_versions reassigned by the application: (number of ops before it, parser, new set as
     /// sorted list; more than 64 members = all 65536)
     pub reconfigs: Vec<(usize, usize, Vec<u16>)>,
@@ -25,7 +29,7 @@ pub struct Sut {
 
 impl Sut {
     pub fn new(n: usize) -> Sut {
-        Sut { parsers: (0..n).map(|_| NetflowParser::default()).collect(), ops: vec![], evictions: vec![], rekeys: vec![], reconfigs: vec![], initial_allowed: vec![], calls: 0, bytes: 0 }
+        Sut { parsers: (0..n).map(|_| NetflowParser::default()).collect(), ops: vec![], evictions: vec![], rekeys: vec![], persists: vec![], saved: vec![], reconfigs: vec![], initial_allowed: vec![], calls: 0, bytes: 0 }
     }
     /// The application removes one id from one of the public cache maps (as a collector that
     /// expires templates does). Returns whether the id was present.
@@ -46,6 +50,21 @@ impl Sut {
         let mut v: Vec<u16> = self.parsers[p].allowed_versions.iter().cloned().collect();
         v.sort();
         self.reconfigs.push((self.ops.len(), p, v));
+    }
+    /// The application keeps a copy of the public cache maps (a persisted template list).
+    pub fn snapshot(&mut self, p: usize) {
+        self.persists.push((self.ops.len(), p, "snapshot"));
+        if self.saved.len() < self.parsers.len() {
+            self.saved.resize_with(self.parsers.len(), || None);
+        }
+        self.saved[p] = Some(crate::observe::clone_parser(&self.parsers[p]));
+    }
+    /// ... and later merges it back into the maps: every saved entry whose key is absent from its map.
+    pub fn restore(&mut self, p: usize) {
+        self.persists.push((self.ops.len(), p, "restore"));
+        if let Some(Some(s)) = self.saved.get(p) {
+            restore_into(&mut self.parsers[p], s);
+        }
     }
     /// The application files a cached template under another key of the public map.
     pub fn rekey(&mut self, p: usize, map: &'static str, id: u16, to: u16) -> bool {
@@ -81,6 +100,9 @@ impl Sut {
             }
             for e in self.rekeys.iter().filter(|e| e.0 == i) {
                 ops.push(json!({"parser": e.1, "rekey": {"map": e.2, "id": e.3, "to": e.4}}));
+            }
+            for e in self.persists.iter().filter(|e| e.0 == i) {
+                ops.push(json!({"parser": e.1, "persist": e.2}));
             }
             for e in self.reconfigs.iter().filter(|e| e.0 == i) {
                 ops.push(json!({"parser": e.1, "allowed": if e.2.len() > 64 { json!("all-65536") } else { json!(e.2) }}));
@@ -121,6 +143,21 @@ pub fn rekey_in(p: &mut NetflowParser, map: &str, id: u16, to: u16) -> bool {
         "ipfix.templates" => p.ipfix_parser.templates.remove(&id).map(|t| p.ipfix_parser.templates.insert(to, t)).is_some(),
         "ipfix.options_templates" => p.ipfix_parser.options_templates.remove(&id).map(|t| p.ipfix_parser.options_templates.insert(to, t)).is_some(),
         _ => false,
+    }
+}
+
+pub fn restore_into(p: &mut NetflowParser, saved: &NetflowParser) {
+    for (k, v) in &saved.v9_parser.templates {
+        p.v9_parser.templates.entry(*k).or_insert_with(|| v.clone());
+    }
+    for (k, v) in &saved.v9_parser.options_templates {
+        p.v9_parser.options_templates.entry(*k).or_insert_with(|| v.clone());
+    }
+    for (k, v) in &saved.ipfix_parser.templates {
+        p.ipfix_parser.templates.entry(*k).or_insert_with(|| v.clone());
+    }
+    for (k, v) in &saved.ipfix_parser.options_templates {
+        p.ipfix_parser.options_templates.entry(*k).or_insert_with(|| v.clone());
     }
 }
 
